@@ -1,6 +1,6 @@
-\* emission: every edge of the histories of up to 3 actions, every state with its observation; laws checked as well
+\* emission: every edge of the histories of up to 4 actions (thorough), every state with its observation; laws checked as well
 CONSTANTS CompArea <- McCompArea  Holds <- McHolds  NNuc = 4  AW <- McAW  NameRev = FALSE  TempNuc = 2
-  Scenarios <- McScenarios  ScnOf <- McScnOf  MaxLevel = 4
+  Scenarios <- McScenarios  ScnOf <- McScnOf  MaxLevel = 5
 INIT Init
 NEXT Next
 CONSTRAINT Bound
